@@ -12,6 +12,10 @@
 (*       depth Depth-2                                                        *)
 (*   D3  every ordered pair of blocks                                         *)
 (*   D4  every ordered pair of depth-1 inlines in one paragraph               *)
+(*   D5  literal brackets split over text runs / inside link text / nested    *)
+(*   D6  empty parts: calls, argument references, links whose arguments are   *)
+(*       all / partly empty (or blank-only), in every block context, inline   *)
+(*       wrapper and outer block                                              *)
 EXTENDS Unparse, Json
 
 CONSTANTS Depth, Part, Parts
@@ -131,7 +135,50 @@ NestBr == <<S(<<"[", "[", "a1", "SP", "[", "[", "b1", "]", "]", "SP", "c1", "]",
 D5 == { <<"D5", "split", J3(OpenBr, Wrap(w, <<S(<<"a1">>)>>), JoinKids(CloseBr, <<NL>>))>> : w \in {"B", "I", "H", "T", "E", "L"} }
       \cup { <<"D5", "inlink", JoinKids(Wrap("L", x), <<NL>>)>> : x \in LeafBr \cup {NestBr} }
       \cup { <<"D5", "nest", Blk(w, NestBr)>> : w \in {"para", "ul", "cell", "div"} }
-AllDocs(z) == D1 \cup D2 \cup D3 \cup D4 \cup D5
+\* D6: EMPTY PARTS.  Argument lists of templates, parser functions (also the magic-word spellings),
+\* argument references, links and external links in which all / some / only the first / only the
+\* last / only the middle arguments are empty - an empty argument is the empty child list - or hold
+\* a blank only, an empty named value, or a nested call whose own arguments are all empty; also an
+\* empty name / target.  Each such node stands in every block context, inside every inline wrapper
+\* (bold, italic, span, link text, external-link text, positional / named template argument,
+\* parser-function argument, default of an argument reference; two wrappers deep at Depth >= 4) and
+\* inside every outer block.  The tree read back must hold the same node kinds and the same argument
+\* lists including the empty ones (Equiv, decided by TLC in Trace_Unparse).
+ArgVal(v) ==
+  CASE v = "E" -> <<>>                                   \* empty argument
+    [] v = "S" -> <<S(<<"SP">>)>>                         \* a blank only
+    [] v = "A" -> <<S(<<"a1">>)>>
+    [] v = "K" -> <<S(<<"k", "=">>)>>                     \* named, empty value
+    [] v = "N" -> <<Node("PARSER_FN", <<>>, <<<<S(<<"lc">>)>>, <<>>>>, <<>>, <<>>)>>   \* {{lc:}} as the argument
+ArgPats(vals, lo, hi) == UNION { [1..n -> vals] : n \in lo..hi }
+EmptyPats == {p \in ArgPats({"E", "A"}, 1, 3) : \E i \in 1..Len(p) : p[i] = "E"}
+BlankPats == {<<"S">>, <<"S", "E">>, <<"E", "S">>, <<"S", "A">>, <<"A", "S">>, <<"K">>, <<"K", "E">>, <<"N">>, <<"N", "E">>, <<"E", "N">>}
+ShortPats == {<<"E">>, <<"E", "E">>, <<"E", "E", "E">>, <<"E", "A">>, <<"A", "E">>}
+CallOf(kind, name, p) == Node(kind, <<>>, <<name>> \o [i \in 1..Len(p) |-> ArgVal(p[i])], <<>>, <<>>)
+EmptyCalls ==
+  { CallOf("TEMPLATE", <<S(<<"t">>)>>, p) : p \in EmptyPats \cup BlankPats }
+  \cup { CallOf("PARSER_FN", <<S(<<"#", "if">>)>>, p) : p \in EmptyPats \cup BlankPats }
+  \cup { CallOf("PARSER_FN", <<S(nm)>>, p) : nm \in {<<"#", "switch">>, <<"lc">>, <<"PAGENAME">>}, p \in ShortPats }
+  \cup { CallOf("TEMPLATE_ARG", <<S(<<"1">>)>>, p) : p \in {q \in ShortPats : Len(q) <= 2} \cup {<<"S">>} }
+  \cup { CallOf("TEMPLATE_ARG", <<>>, p) : p \in {<<"E">>, <<"A">>} }                          \* {{{|}}} {{{|a1}}}
+  \cup { CallOf("LINK", <<S(<<"l">>)>>, p) : p \in {q \in ShortPats : Len(q) <= 2} \cup {<<"S">>} }   \* [[l|]] ...
+  \cup { CallOf("LINK", <<>>, <<"A">>) }                                                       \* [[|a1]]
+  \cup { CallOf("URL", <<S(Url1)>>, <<"E">>) }                                                 \* [url ]
+AllEmpty(e) == \A i \in 2..Len(e.largs) : e.largs[i] = <<>>
+D6Blocks == IF Depth >= 4 THEN BlockW ELSE {"para", "title", "ul", "nested", "ddef", "cell", "hcell", "caption", "div", "li"}
+D6Wrappers(e) == IF e.kind \in {"LINK", "URL"} THEN {"B", "I", "H", "T", "N", "P", "A"} ELSE {"B", "I", "H", "L", "E", "T", "N", "P", "A"}
+D6Wrappers2(w1) == Wrappers({w1}) \ {"R"}
+D6 == { <<"D6", w, Blk(w, <<e>>)>> : w \in D6Blocks, e \in EmptyCalls }
+      \cup UNION { { <<"D6", "in" \o w, Blk("para", Wrap(w, <<e>>))>> : w \in D6Wrappers(e) } : e \in EmptyCalls }
+      \cup UNION { { <<"D6", "mid" \o w, Blk("ul", J3(<<S(<<"p1", "SP">>)>>, Wrap(w, <<e>>), <<S(<<"SP", "q1">>)>>))>> : w \in D6Wrappers(e) \cap {"B", "T", "P"} } :
+                   e \in {x \in EmptyCalls : AllEmpty(x)} }
+      \cup { <<"D6", ow[1], Outer(ow[1], Blk(ow[2], <<e>>))>> :
+               ow \in {v \in OuterW \X {"ul", "cell"} : InnerOK(v[1], v[2])}, e \in {x \in EmptyCalls : AllEmpty(x)} }
+      \cup (IF Depth >= 4
+            THEN UNION { UNION { { <<"D6", "in" \o w1 \o w2, Blk("para", Wrap(w1, Wrap(w2, <<e>>)))>> :
+                                   w2 \in D6Wrappers(e) \cap D6Wrappers2(w1) } : w1 \in D6Wrappers(e) } : e \in EmptyCalls }
+            ELSE {})
+AllDocs(z) == D1 \cup D2 \cup D3 \cup D4 \cup D5 \cup D6
 
 (* ---------------- compact hand-written rendering ---------------- *)
 RECURSIVE Write(_), WriteList(_), WriteArgs(_, _)
